@@ -37,6 +37,7 @@ func c20Gen(r *kit.Rng) *sched.Scenario {
 		s = schema.GenerateRich(r, "m", r.Range(25, 45), r.Range(2, 3))
 	} else {
 		s = schema.Generate(r, caps, "m", r.Chance(1, 2), true)
+		schema.AddWhens(r, s)
 	}
 	sc := &sched.Scenario{Schema: s, Procs: kit.EnvInt("VERIF_C20_PROCS", 1)}
 	k := r.Range(2, 6)
@@ -163,6 +164,18 @@ func c20Oracle(sc *sched.Scenario, res *sched.Result) []c20Finding {
 			}
 		}
 	}
+	for i := range res.Together {
+		if i >= len(res.AloneFresh) {
+			break
+		}
+		for j := range res.Together[i] {
+			if j < len(res.AloneFresh[i]) && res.Together[i][j] != res.AloneFresh[i][j] {
+				kind := sc.Clients[i].Ops[j].Kind
+				out = append(out, c20Finding{"alone-fresh-process-vs-together:" + kind, fmt.Sprintf("client %d op %d (%s) obtained a different result in the concurrent run than when its program runs by itself in a fresh process:\n   together: %s\n   alone:    %s", i, j, kind, trunc(res.Together[i][j], 300), trunc(res.AloneFresh[i][j], 300))})
+				break
+			}
+		}
+	}
 	if res.MHashBefore != res.MHashAfter {
 		out = append(out, c20Finding{"shared-module-mutated", fmt.Sprintf("the deep structural hash of the shared compiled module changed while clients used it (%x -> %x)", res.MHashBefore, res.MHashAfter)})
 	}
@@ -193,7 +206,7 @@ func c20Batch(c *Check, tier string) int {
 		fmt.Fprintln(os.Stderr, "harness:", err)
 		return 2
 	}
-	n := kit.EnvInt("VERIF_QUICK_RUNS", 400)
+	n := kit.EnvInt("VERIF_QUICK_RUNS", 300)
 	limit := 3 * time.Minute
 	if tier == "thorough" {
 		n = 1 << 30
@@ -231,6 +244,23 @@ func c20Batch(c *Check, tier string) int {
 				sc := c20Gen(r)
 				it := &item{i: i, sc: sc}
 				it.res = sched.Exec(sc, 120*time.Second)
+				// the same programs alone, in a fresh process, clients in reverse order
+				hasLoad := false
+				for _, cl := range sc.Clients {
+					for _, o := range cl.Ops {
+						if strings.HasPrefix(o.Kind, "load") {
+							hasLoad = true
+						}
+					}
+				}
+				if hasLoad || i%4 == 0 || tier == "thorough" {
+					scA := *sc
+					scA.AloneOnly = true
+					ra := sched.Exec(&scA, 120*time.Second)
+					if ra.Err == "" && ra.Fatal == "" {
+						it.res.AloneFresh = ra.Alone
+					}
+				}
 				// determinism sample: 1 in 20 scenarios is executed again at another GOMAXPROCS
 				if i%20 == 0 {
 					sc2 := *sc
@@ -410,7 +440,7 @@ func c20Batch(c *Check, tier string) int {
 // c20Minimise drops clients and operations while the same key persists.
 func c20Minimise(sc *sched.Scenario, key string) *sched.Scenario {
 	try := func(c *sched.Scenario) bool {
-		res := sched.Exec(c, 60*time.Second)
+		res := c20ExecBoth(c)
 		for _, f := range c20Oracle(c, &res) {
 			if f.key == key {
 				return true
@@ -465,7 +495,7 @@ func c20Replay(raw json.RawMessage) ([]*kit.Violation, error) {
 	if err := json.Unmarshal(raw, &sc); err != nil {
 		return nil, err
 	}
-	res := sched.Exec(&sc, 120*time.Second)
+	res := c20ExecBoth(&sc)
 	var vs []*kit.Violation
 	for _, f := range c20Oracle(&sc, &res) {
 		vs = append(vs, &kit.Violation{Property: "C20", Key: f.key, Detail: f.detail, LogHash: res.Fingerprint, Scenario: raw})
@@ -481,4 +511,16 @@ func init() {
 		r := kit.NewRng(kit.Mix(kit.Seed(), "C20", i))
 		os.Stdout.Write(mustJSON(c20Gen(r)))
 	}
+}
+
+// c20ExecBoth runs the concurrent pass and the alone-in-a-fresh-process pass.
+func c20ExecBoth(sc *sched.Scenario) sched.Result {
+	res := sched.Exec(sc, 120*time.Second)
+	scA := *sc
+	scA.AloneOnly = true
+	ra := sched.Exec(&scA, 120*time.Second)
+	if ra.Err == "" && ra.Fatal == "" {
+		res.AloneFresh = ra.Alone
+	}
+	return res
 }
